@@ -293,6 +293,190 @@ pub fn run(c: &C12Case) -> Outcome {
 	o
 }
 
+// ------------------------------------------------------------------ end-to-end leg
+// The real CLI (`wx` = watchexec_cli::run(), so the real get_args() normalisation, config wiring and
+// fs watcher) in --only-emit-events mode on a real project directory: which created / modified
+// files are reported.
+
+fn run_e2e(c: &C12Case) -> Outcome {
+	use std::io::{BufRead, BufReader};
+	use std::sync::{Arc, Mutex};
+	use std::time::{Duration, Instant};
+	let mut o = Outcome::pass();
+	let h = home().clone();
+	let p = project(c);
+	let flags = c.flags % 64;
+	let option = c.option % 7;
+	o.nontrivial = flags != 0 && option != 0;
+	let opt_name = ["none", "--ignore", "--ignore-file", "--filter", "--filter-file", "--exts", "--fs-events"][option as usize];
+	o.label(format!("option:{opt_name}"));
+	let n = c.suffix;
+	// a file that exists before the watcher starts, for the modify probe of --fs-events
+	let pre = p.origin.join(if option == 5 { "pre-existing.rs" } else { "filt-filtf-pre-existing.txt" });
+	std::fs::write(&pre, "0").unwrap();
+	let mut av = argv(c, &p, flags, option);
+	av.truncate(av.len() - 2); // drop "-- true"
+	av.remove(0);
+	av.push("--only-emit-events".into());
+	av.push("--emit-events-to=stdio".into());
+	let mut child = match std::process::Command::new(super::c18::wx_path())
+		.args(&av)
+		.current_dir(&p.origin)
+		.env("HOME", &h)
+		.env("XDG_CONFIG_HOME", h.join("xdg"))
+		.env("GIT_CONFIG_NOSYSTEM", "1")
+		.env_remove("WATCHEXEC_IGNORE_FILES")
+		.env_remove("WATCHEXEC_FILTER_FILES")
+		.env_remove("GIT_CONFIG_GLOBAL")
+		.env_remove("RUST_LOG")
+		.stdin(std::process::Stdio::null())
+		.stdout(std::process::Stdio::piped())
+		.stderr(std::process::Stdio::piped())
+		.spawn()
+	{
+		Ok(c) => c,
+		Err(e) => {
+			o.fail("env:wx-spawn", e.to_string());
+			return o;
+		}
+	};
+	let lines: Arc<Mutex<Vec<String>>> = Arc::new(Mutex::new(Vec::new()));
+	let reader = {
+		let lines = lines.clone();
+		let out = child.stdout.take().unwrap();
+		std::thread::spawn(move || {
+			for l in BufReader::new(out).lines().map_while(Result::ok) {
+				lines.lock().unwrap().push(l);
+			}
+		})
+	};
+	let seen = |path: &Path| -> bool {
+		let suffix = format!(":{}", path.display());
+		lines.lock().unwrap().iter().any(|l| l.ends_with(&suffix))
+	};
+	// names that pass whatever explicit option is in force
+	let passing = |stem: &str| -> PathBuf {
+		p.origin.join(match option {
+			3 => format!("filt-{stem}.txt"),
+			4 => format!("filtf-{stem}.txt"),
+			5 => format!("{stem}.rs"),
+			_ => format!("{stem}.txt"),
+		})
+	};
+	let finish = |child: &mut std::process::Child| -> String {
+		let _ = child.kill();
+		let _ = child.wait();
+		let mut err = String::new();
+		if let Some(mut e) = child.stderr.take() {
+			use std::io::Read;
+			let _ = e.read_to_string(&mut err);
+		}
+		err
+	};
+	// readiness: keep creating sentinels until one is reported
+	let t0 = Instant::now();
+	let mut k = 0;
+	let ready = loop {
+		let s = passing(&format!("ready{k}"));
+		let _ = std::fs::write(&s, "x");
+		let until = Instant::now() + Duration::from_millis(150);
+		let mut ok = false;
+		while Instant::now() < until {
+			if seen(&s) {
+				ok = true;
+				break;
+			}
+			std::thread::sleep(Duration::from_millis(5));
+		}
+		if ok {
+			break true;
+		}
+		k += 1;
+		if t0.elapsed() > Duration::from_secs(8) || matches!(child.try_wait(), Ok(Some(_))) {
+			break false;
+		}
+	};
+	if !ready {
+		let exited = matches!(child.try_wait(), Ok(Some(_)));
+		let err = finish(&mut child);
+		let _ = reader.join();
+		// the CLI refusing these arguments, or reporting nothing at all for a plainly passing file, is a finding, not an environment problem
+		o.fail(
+			if exited { format!("e2e:cli-exited:{opt_name}") } else { format!("e2e:passing-file-never-reported:{opt_name}") },
+			format!("no sentinel was reported within 8 s (wx exited: {exited})\nargv {av:?}\nstderr: {}\ncase {c:?}", err.chars().take(600).collect::<String>()),
+		);
+		return o;
+	}
+	// probes: (description, path, expect reported, how: true = create, false = modify the pre-existing file)
+	let mut probes: Vec<(String, PathBuf, bool, bool)> = Vec::new();
+	match option {
+		1 => probes.push(("path matched by --ignore".into(), p.origin.join(format!("expl-only.{n}")), false, true)),
+		2 => probes.push(("path matched by the --ignore-file".into(), p.origin.join(format!("explf-only.{n}")), false, true)),
+		3 => probes.push(("path not matched by --filter".into(), p.origin.join("plain.txt"), false, true)),
+		4 => probes.push(("path not matched by the --filter-file".into(), p.origin.join("plain.txt"), false, true)),
+		5 => probes.push(("file without the extension".into(), p.origin.join("plain.txt"), false, true)),
+		6 => probes.push(("modify event (not in --fs-events)".into(), pre.clone(), false, false)),
+		_ => {}
+	}
+	probes.push(("file passing the explicit option".into(), passing("probe-pass"), true, true));
+	if !matches!(option, 3 | 4 | 5) {
+		for (what, path, source) in source_probes(c, &p) {
+			probes.push((what.to_string(), path, removed(flags, source), true));
+		}
+	}
+	for (_, path, _, create) in &probes {
+		if *create {
+			let _ = std::fs::write(path, "x");
+		} else {
+			let _ = std::fs::write(path, "changed-content");
+		}
+		std::thread::sleep(Duration::from_millis(2));
+	}
+	// a final sentinel: once it has been reported everything before it has been through the filter
+	let last = passing("zz-last");
+	let _ = std::fs::write(&last, "x");
+	let until = Instant::now() + Duration::from_secs(6);
+	while Instant::now() < until && !seen(&last) {
+		std::thread::sleep(Duration::from_millis(5));
+	}
+	let last_seen = seen(&last);
+	std::thread::sleep(Duration::from_millis(250));
+	let err = finish(&mut child);
+	let _ = reader.join();
+	let flag_names: Vec<&str> = FLAGS.iter().enumerate().filter(|(i, _)| flags >> i & 1 == 1).map(|(_, f)| *f).collect();
+	let dump = || format!("\nflags {flag_names:?} option {opt_name}\nargv {av:?}\nreported:\n{}\nstderr: {}\ncase {c:?}", lines.lock().unwrap().join("\n"), err.chars().take(400).collect::<String>());
+	if !last_seen {
+		o.fail(format!("e2e:passing-file-never-reported:{opt_name}"), format!("the final sentinel {last:?} was not reported within 6 s{}", dump()));
+		return o;
+	}
+	for (what, path, expect, _) in &probes {
+		let got = seen(path);
+		if got != *expect {
+			let sig = if what.contains("--") || what.starts_with("file ") || what.starts_with("path ") {
+				format!("e2e:explicit-option-wrong:{opt_name}")
+			} else {
+				format!("e2e:source:{}:{}", what.replace(' ', "-"), if *expect { "kept-despite-flag" } else { "dropped-by-unrelated-flag" })
+			};
+			o.fail(sig, format!("{what}: {path:?} reported={got}, expected reported={expect}{}", dump()));
+			return o;
+		}
+	}
+	o
+}
+
+fn e2e_strategy() -> BoxedStrategy<C12Case> {
+	(0u8..64, 0u8..7, 0u16..50, 0u8..3, any::<bool>(), any::<bool>())
+		.prop_map(|(flags, option, k, nested_depth, relative_file_arg, with_info_exclude)| C12Case {
+			flags,
+			option,
+			suffix: 100 + k * 7 + u16::from(option),
+			nested_depth,
+			relative_file_arg,
+			with_info_exclude,
+		})
+		.boxed()
+}
+
 fn all_cases(projects: u16) -> Vec<C12Case> {
 	let mut v = Vec::new();
 	for flags in 0..64u8 {
@@ -323,6 +507,22 @@ pub fn check(e: &Engine) {
 		all_cases(e.tier.pick(3, 40)),
 		&run,
 	);
-	let _ = LegOpts::det(0, "");
-	let _ = any::<u8>();
+	if !super::c18::wx_path().exists() {
+		e.inconclusive("wx binary not built next to vcheck");
+		return;
+	}
+	e.explore(
+		"cli-e2e",
+		LegOpts {
+			cases: e.tier.pick(64, 1_800),
+			shards: 16,
+			threads: 16,
+			confirm: 3,
+			max_shrink_iters: 12,
+			rule: "the real CLI process (wx = watchexec_cli::run(): real get_args normalisation, config wiring, ignore discovery and native fs watcher) in --only-emit-events text mode on a generated project, with a generated (flag set, explicit option) pair: after a readiness sentinel has been reported, one file per ignore source and per explicit-option probe is created (or modified, for --fs-events), then a final sentinel; a probe counts as passed iff a reported line names it; expected per the same tables as the in-process leg; non-trivial = flag set non-empty and an explicit option given",
+			confirm_any: &[],
+		},
+		&e2e_strategy,
+		&run_e2e,
+	);
 }
